@@ -1,0 +1,35 @@
+//go:build verif
+// +build verif
+
+package seqio
+
+import (
+	"time"
+
+	"github.com/go-gts/gts"
+	"github.com/go-pars/pars"
+)
+
+// Exports of unexported functions for the verification harness in /verif.
+// Compiled only with `-tags verif`; adds no behaviour.
+
+func VerifToOriginLength(n int) int   { return toOriginLength(n) }
+func VerifFromOriginLength(n int) int { return fromOriginLength(n) }
+func VerifIsLeapYear(y int) bool      { return isLeapYear(y) }
+func VerifCheckDate(y int, m time.Month, d int) error {
+	return checkDate(y, m, d)
+}
+func VerifValidateOrigin(p []byte, length int) error {
+	return validateOrigin(p, length, pars.Position{})
+}
+func VerifSlowOriginParser(length int) pars.Parser { return slowGenBankOriginParser(length) }
+func VerifOriginParser(length int) func(gb *GenBank, depth int) pars.Parser {
+	return makeGenbankOriginParser(length)
+}
+func VerifParseReferenceInfo(prefix, info string) ([]gts.Ranged, bool) {
+	result, err := parseReferenceInfo(prefix).Parse(pars.FromString(info))
+	if err != nil {
+		return nil, false
+	}
+	return result.Value.([]gts.Ranged), true
+}
